@@ -22,6 +22,51 @@ def szeq(a, b):
         return None
 
 
+
+def lag_sums(rep, f, itp, here, nmax, label, seen):
+    """every lag sum runs over all N - k products of the equalised sequences (N = the longer length): a loop whose trip count
+    depends on the lag symbol has exactly that many passes, whichever input is the shorter one; the same count for a lag sum
+    written as an inner product of two slices"""
+    for e in [e_ for e_ in itp.events if e_[0] == 'range-loop' and e_[5] in here]:
+        lo_, hi_, st_ = e[2], e[3], e[4]
+        if lo_ is None or hi_ is None or st_ != 1 or nmax is None:
+            continue
+        trip = hi_ - lo_
+        ks = [s_ for s_ in trip.t if s_ in Aff.BOUNDS]
+        if len(ks) != 1:
+            continue
+        want_ = nmax - Aff.sym(ks[0])
+        c_ = 'lag sum %s [%s]' % (normalise(e[1].iter)[:40], label)
+        if ('trip', normalise(e[1].iter), label) in seen:
+            continue
+        seen.add(('trip', normalise(e[1].iter), label))
+        if trip == want_:
+            rep.proved('pad', f.qname, c_, '%s products for lag %s' % (trip, ks[0].split('@')[0]), loc(f.mod, e[1]))
+        else:
+            rep.violation('pad', f.qname, c_, 'the sum for lag k runs over %s products, the definition has %s (N = length of the longer '
+                          'sequence): when the second sequence is the shorter one the products beyond its length are dropped although '
+                          'the first sequence is not zero there' % (trip, want_), loc(f.mod, e[1]))
+    for e in [e_ for e_ in itp.events if e_[0] == 'contract' and e_[4] in here]:
+        la_, lb_ = e[2], e[3]
+        if la_ is None or lb_ is None or nmax is None:
+            continue
+        ks = [s_ for s_ in la_.t if s_ in Aff.BOUNDS]
+        if len(ks) != 1:
+            continue
+        want_ = nmax - Aff.sym(ks[0])
+        key_ = ('contract', normalise(e[1])[:60], label)
+        if key_ in seen:
+            continue
+        seen.add(key_)
+        c_ = 'lag sum %s [%s]' % (normalise(e[1])[:40], label)
+        if la_ == want_ and lb_ == want_:
+            rep.proved('pad', f.qname, c_, '%s products for lag %s' % (la_, ks[0].split('@')[0]), loc(f.mod, e[1]))
+        else:
+            rep.violation('pad', f.qname, c_, 'the inner product for lag k sums %s x %s products, the definition has %s (N = length of '
+                          'the longer sequence): the last product(s) of the overlap are dropped (or the operands differ in length)'
+                          % (la_, lb_, want_), loc(f.mod, e[1]))
+
+
 def run(prog, rep, tier='quick'):
     rep.explanation = (
         'Decides for all sequences: (pad) after the length equalisation of CORRELATION the padded x depends only on x '
@@ -91,28 +136,8 @@ def run(prog, rep, tier='quick'):
                               loc(f.mod, e[1]))
             else:
                 rep.proved('pad', f.qname, c, 'samples first, zeros behind: %s' % SG.show(segs), loc(f.mod, e[1]))
-        # every lag sum runs over all N - k products of the equalised sequences (N = the longer length): a loop whose trip count
-        # depends on the lag symbol has exactly that many passes, whichever input is the shorter one
         nmax = Aff.sym('max(%s,%s)' % (x.shape[0], y.shape[0]))          # the name the interpreter gives max(len(x), len(y))
-        for e in [e_ for e_ in itp.events if e_[0] == 'range-loop' and e_[5] in here]:
-            lo_, hi_, st_ = e[2], e[3], e[4]
-            if lo_ is None or hi_ is None or st_ != 1 or nmax is None:
-                continue
-            trip = hi_ - lo_
-            ks = [s_ for s_ in trip.t if s_ in Aff.BOUNDS]
-            if len(ks) != 1:
-                continue
-            want_ = nmax - Aff.sym(ks[0])
-            c_ = 'lag sum %s [%s]' % (normalise(e[1].iter)[:40], label)
-            if ('trip', normalise(e[1].iter), label) in seen:
-                continue
-            seen.add(('trip', normalise(e[1].iter), label))
-            if trip == want_:
-                rep.proved('pad', f.qname, c_, '%s products for lag %s' % (trip, ks[0].split('@')[0]), loc(f.mod, e[1]))
-            else:
-                rep.violation('pad', f.qname, c_, 'the sum for lag k runs over %s products, the definition has %s (N = length of the longer '
-                              'sequence): when the second sequence is the shorter one the products beyond its length are dropped although '
-                              'the first sequence is not zero there' % (trip, want_), loc(f.mod, e[1]))
+        lag_sums(rep, f, itp, here, nmax, label, seen)
         for var, own, other in (('x', 'x', 'y'), ('y', 'y', 'x')):
             n_pad += 1
             val = caps[-1].get(var)
@@ -186,6 +211,10 @@ def run(prog, rep, tier='quick'):
                                       'array: the imaginary part of every lag value is discarded', gwhere)
                     if not nconf:
                         check_sink(rep, 'conj', g.qname, label, 'r', r, exp, gwhere, itp, comps, seen)
+                    if fname == 'CORRELATION' and norm == 'biased' and cplx == cplx_y and x.shape[0] is not None:
+                        # equal lengths: every lag sum (loop or inner product of slices) has N - k products
+                        lag_sums(rep, g, itp, {g.qname} | {q_ for q_ in itp.trace if q_.startswith('correlation.')}, x.shape[0],
+                                 label, seen)
                     # ---- norm
                     if fname == 'xcorr' and not cross and norm == 'biased':
                         # boundary of the lag range: maxlags = 0 is a requested lag count like any other (one value, lag 0)
